@@ -29,7 +29,7 @@ ASSUMPTIONS = [
     "integers are limited to |v| < 1e15 (exactly representable in both int64 and float64)",
     "numeric comparison reader-vs-token tolerates max(1e-15 absolute, 1e-13 relative): pandas.to_numeric drops digits beyond the 16th decimal place of positional-notation tokens (e.g. '0.00000000000012345678' -> 1.234e-13); nine orders of magnitude below STAR's 6-decimal precision, exponent-notation tokens are exact",
 ]
-BUDGET = {"quick": {"examples": 1200, "seconds": 70}, "thorough": {"examples": 6000, "seconds": 480}}
+BUDGET = {"quick": {"examples": 1000, "seconds": 70}, "thorough": {"examples": 6000, "seconds": 480}}
 
 # ---------------------------------------------------------------------------------------------
 # generators
@@ -411,10 +411,111 @@ def _cmp_values(out, c, toks, col, prefix):
         out.check(list(got) == list(vals), f"{prefix}:text_value", lambda: f"{c['name']}: {list(got)[:4]} vs {vals[:4]}")
 
 
+NUMERICISH = set("0123456789+-.eEinfINFatyNAn_xX")
+
+
+def run_rawtext(case, out):
+    """Raw STAR text (fuzzer): the oracle applies only if the independent tokenizer accepts the text. Returns False if outside the subset."""
+    from cryocat import starfileio
+
+    text = case["text"]
+    if not text.isascii() or any(ord(ch) < 32 and ch not in "\t\n\r" for ch in text) or "\r" in text.replace("\r\n", ""):
+        return False
+    try:
+        ref = oracle.star_tokenize(text)
+    except ValueError:
+        return False
+    if not ref or any(not b["labels"] for b in ref) or any(not b["rows"] for b in ref[:-1]):
+        return False
+    if len({b["spec"] for b in ref}) != len(ref) or any(not b["spec"].startswith("data_") for b in ref):
+        return False
+    if any(t.startswith("_") or t == "loop_" for b in ref for r in b["rows"] for t in r):
+        return False
+    if any(l == "" for b in ref for l in b["labels"]):
+        return False
+    with open("raw.star", "w", newline="") as f:
+        f.write(text)
+    out.nontrivial = len(ref) >= 2
+    ok, res = call(out, "Starfile.read", lambda: starfileio.Starfile.read("raw.star"))
+    if not ok:
+        return True
+    frames, specs, _ = res
+    if not out.check(list(specs) == [b["spec"] for b in ref], "raw:specifiers_differ", f"{specs}"):
+        return True
+    for f_, b in zip(frames, ref):
+        # columns whose tokens are not plainly numeric but could be read as numbers by some parser are not value-compared
+        amb = [j for j in range(len(b["labels"])) if b["rows"] and not all(NUM_RE.match(r[j]) for r in b["rows"]) and any(set(r[j]) <= NUMERICISH for r in b["rows"])]
+        if amb or len(set(b["labels"])) != len(b["labels"]):
+            out.check(list(f_.columns) == b["labels"] and len(f_) == len(b["rows"]), "raw:labels_or_row_count", f"{list(f_.columns)}")
+        else:
+            compare_frame_to_tokens(out, f_, b["labels"], b["rows"], "raw")
+    return True
+
+
 def run(case):
     out = Outcome()
     if case["kind"] == "read":
         run_read(case, out)
+    elif case["kind"] == "rawtext":
+        run_rawtext(case, out)
     else:
         run_roundtrip(case, out)
     return out
+
+
+def extra_campaign(tier, seed, stats, known_open):
+    """Coverage-guided atheris campaign on the reader (structured + raw text); results merged into the run's statistics."""
+    import json
+    import shutil
+    import subprocess
+    import sys
+    import tempfile
+
+    verif = os.path.dirname(os.path.dirname(os.path.abspath(__file__)))
+    script = os.path.join(verif, "fuzz", "c02_star_fuzz.py")
+    if not os.path.isdir(os.path.join(verif, ".deps", "atheris")):
+        subprocess.run(["bash", os.path.join(verif, "setup.sh")], stdout=subprocess.DEVNULL, stderr=subprocess.DEVNULL)
+    if not os.path.isdir(os.path.join(verif, ".deps", "atheris")):
+        return {"fuzz_campaign": "skipped: atheris could not be installed from the offline wheelhouse"}
+    runs = 4000 if tier == "quick" else 150000
+    secs = 25 if tier == "quick" else 300
+    work = tempfile.mkdtemp(prefix="c02fuzzrun_")
+    corpus = os.path.join(work, "corpus")
+    os.makedirs(corpus)
+    # seed corpus: the repository's small STAR files as raw-mode inputs (mode byte 0 + text), plus the empty corpus behaviour of libFuzzer
+    import glob
+
+    from vlib import env
+
+    n_seed = 0
+    for f in sorted(glob.glob(os.path.join(env.repo_path(), "tests", "test_data", "**", "*.star"), recursive=True)):
+        if os.path.getsize(f) < 3000:
+            raw = open(f, "rb").read()
+            with open(os.path.join(corpus, "seed_%d" % n_seed), "wb") as g:
+                g.write(raw.replace(b"\r", b"") + b"\x00")  # FuzzedDataProvider takes integers from the end: last byte = mode
+            n_seed += 1
+    findings = os.path.join(work, "findings")
+    cmd = [sys.executable, "-W", "ignore", script, findings, corpus, f"-runs={runs}", f"-seed={max(1, int(seed))}", "-max_len=2600", "-timeout=20",
+           f"-max_total_time={secs}", "-print_final_stats=1", "-verbosity=0"]
+    p = subprocess.run(cmd, stdout=subprocess.PIPE, stderr=subprocess.STDOUT, text=True, env=dict(os.environ, PYTHONPATH=os.path.join(verif, ".deps")))
+    info = {"fuzz_campaign": "atheris/libFuzzer on cryocat.starfileio (structured + raw text)", "fuzz_runs_requested": runs, "fuzz_seed_corpus_files": n_seed}
+    try:
+        st_ = json.load(open(os.path.join(findings, "stats.json")))
+        info.update({"fuzz_" + k: v for k, v in st_.items()})
+        stats.evaluations += int(st_.get("execs", 0))
+    except Exception:
+        info["fuzz_stats"] = "unavailable"
+    cov = [l for l in p.stdout.splitlines() if "cov:" in l]
+    if cov:
+        info["fuzz_last_status_line"] = cov[-1][:200]
+    for f in sorted(glob.glob(os.path.join(findings, "fuzz-*.json"))):
+        rec = json.load(open(f))
+        sig = rec["signature"]
+        if sig in known_open:
+            stats.excluded_known[sig] = stats.excluded_known.get(sig, 0) + 1
+            continue
+        stats.buckets[sig] = {"case": rec["case"], "detail": rec["detail"], "count": 1, "shrunk": False}
+    if p.returncode not in (0, 1) and not glob.glob(os.path.join(findings, "fuzz-*.json")) and "stats.json" not in os.listdir(findings if os.path.isdir(findings) else work):
+        info["fuzz_campaign"] += " - did not start: " + p.stdout[-300:]
+    shutil.rmtree(work, ignore_errors=True)
+    return info
